@@ -6,6 +6,7 @@ pub mod core;
 pub mod hooks;
 pub mod iso;
 pub mod pgen;
+pub mod rvbin;
 pub mod srv;
 pub mod util;
 pub mod world;
